@@ -24,7 +24,13 @@ EvRegion == /\ l <= Len(Trace) /\ Trace[l].ev = "region"
                               ELSE IF e.x # "ok" THEN Append(bad, <<e.x, l>>) ELSE bad
             /\ l' = l + 1 /\ UNCHANGED <<off, pc, pl, want, done, fresh, hist, resLo, resHi>>
 
-TNext == EvReserve \/ EvRegion
+\* the allocator's own idea of its reserve [min, max) must lie inside the function stub.Placeholder as the run-time symbol
+\* table knows it (x = "ok"): a reserve that reaches into the following functions hands out other functions' code
+EvBounds == /\ l <= Len(Trace) /\ Trace[l].ev = "bounds"
+            /\ bad' = IF Trace[l].x # "ok" THEN Append(bad, <<Trace[l].x, l>>) ELSE bad
+            /\ l' = l + 1 /\ UNCHANGED <<vars, resLo, resHi>>
+
+TNext == EvReserve \/ EvRegion \/ EvBounds
 TSpec == TInit /\ [][TNext]_tvars
 
 \* the invariants of StubAlloc on the accumulated regions
